@@ -116,6 +116,10 @@ func GenEntry(rng *rand.Rand, kind string) MEntry {
 	case "codespacerange":
 	case "cidchar", "cidrange", "notdefchar", "notdefrange":
 		e.Dst = MDst{Kind: "int", I: int64(rng.IntN(70000))}
+		if rng.IntN(24) == 0 {
+			// integers at the edges of the narrower number formats (a destination is returned as written)
+			e.Dst.I = []int64{65535, 65536, 1<<31 - 1, 1 << 31, 1<<31 + 1, 1<<32 - 1, 1 << 32, 1 << 40, 1 << 53, 1<<62 + 12345, 1<<63 - 1}[rng.IntN(11)]
+		}
 	case "bfchar":
 		if rng.IntN(4) == 0 {
 			e.Dst = MDst{Kind: "name", S: []byte(randCMapNameTok(rng))}
